@@ -366,6 +366,7 @@ func (rn *runner) emitSite(st *site, res siteResult) {
 	for _, r := range res.recovered {
 		note("recoveries", def.Label+"."+r)
 	}
+	rec.Notes = append(rec.Notes, res.notes...)
 	if st.Idx%97 == 3 || os.Getenv("VERIF_ONLY") != "" {
 		rec.Sample = map[string]any{"case_id": caseID(def, st.Idx), "faulted_op": o.String(), "site": st, "outcome": res.outcome, "recoveries": res.recovered}
 	}
